@@ -19,8 +19,12 @@ class Deadlock(Exception):
     """select() would block forever: nothing ready, nothing scheduled."""
 
 
+class Livelock(Exception):
+    """The loop keeps spinning (more iterations than any scenario here legitimately needs)."""
+
+
 class VLoop(asyncio.SelectorEventLoop):
-    MAX_ITERS = 2_000_000
+    MAX_ITERS = 100_000
 
     def __init__(self, symbolic=False):
         super().__init__()
@@ -79,7 +83,7 @@ class VLoop(asyncio.SelectorEventLoop):
     def _run_once(self):
         self.iters += 1
         if self.iters > self.MAX_ITERS:
-            raise Abort("budget", "virtual loop iteration limit")
+            raise Livelock(f"more than {self.MAX_ITERS} event-loop iterations (virtual time {self._vt})")
         if self.iter_hook is not None:
             self.iter_hook(self)
         super()._run_once()
